@@ -625,8 +625,9 @@ pub(crate) fn update_chain_tip<P: consensus::Parameters>(
 
     // If the chain tip is below the wallet birthday, every block up to the tip is below the
     // birthday and there is nothing to add to the scan queue; the ranges starting at the
-    // birthday that are constructed below would be inverted.
-    if wallet_birthday.is_some_and(|birthday| chain_end < birthday) {
+    // birthday that are constructed below would be inverted or, for a tip just below the
+    // birthday, empty.
+    if wallet_birthday.is_some_and(|birthday| new_tip < birthday) {
         return Ok(());
     }
 
